@@ -27,10 +27,13 @@ theorem lexer (s : List Char) :
 
 /-- a keyword-like pattern is recognised only when it stands alone as a whole identifier: it must be
     followed by the end of the input or by a non-identifier character -/
-theorem keyword_needs_boundary (inp : List Char) (p : Pat) (hp : p.identLike = true)
+theorem keyword_needs_boundary (inp : List Char) (p : Pat) (hp : Spec.isWord p = true)
     (h : patMatches inp p = true) : boundaryOk (inp.drop p.text.length) = true := by
   simp only [patMatches, hp, Bool.not_true, Bool.false_or, Bool.and_eq_true] at h
   exact h.2
+
+/-- the code's per-pattern boundary flag (regenerated table) is set exactly on the word patterns -/
+theorem boundary_flags : ∀ p ∈ patterns, p.identLike = Spec.isWord p := patterns_boundary
 
 /-- **grammar**: `parse_tokens` returns `e` exactly when the token list derives `e` -/
 theorem grammar (ts : List Tok) (e : Expr String) : parseTokens ts = .ok e ↔ DOr ts e :=
